@@ -35,6 +35,15 @@ pub enum Work {
     PyBridge { cfg: ChainCfg, n: u64 },
 }
 
+fn bridge_injectf(conv: Conv, family: Family, maxn: usize, n: u64) -> Work {
+    let mut cfg = ChainCfg::new(conv, family, maxn);
+    cfg.twins = false;
+    cfg.export = true;
+    cfg.inject = true;
+    cfg.inject_with_faults = true;
+    Work::PyBridge { cfg, n }
+}
+
 fn bridge(conv: Conv, family: Family, maxn: usize, n: u64, inject: bool, misuse: bool) -> Work {
     let mut cfg = ChainCfg::new(conv, family, maxn);
     cfg.twins = false;
@@ -222,6 +231,8 @@ fn workloads(prop: &str, thorough: bool) -> Vec<Work> {
             exh(&mut w, exhaustive::Phase::Faults);
         }
         "C10" => {
+            w.push(bridge_injectf(Stamped, ValidatedEph, 4, 500 * k));
+            w.push(bridge_injectf(Plain, ValidatedEph, 4, 300 * k));
             w.push(bridge(Prod, AbortOffered, 7, 600 * k, false, false));
             w.push(bridge(Stamped, Random, 8, 400 * k, false, false));
             // a rejected output change (EphemeralChangedOutput) followed by failures / an abort in the same evaluation
@@ -269,6 +280,9 @@ fn workloads(prop: &str, thorough: bool) -> Vec<Work> {
             exh(&mut w, exhaustive::Phase::Edits);
         }
         "C13" => {
+            w.push(bridge(Stamped, EphFail, 4, 700 * k, false, false));
+            w.push(bridge(Stamped, LateFail, 4, 500 * k, false, false));
+            w.push(bridge(Stamped, EphChain, 4, 400 * k, false, false));
             w.push(bridge(Stamped, ValidatedEph, 4, 600 * k, false, false));
             w.push(bridge(Prod, Random, 8, 400 * k, false, false));
             // late failures that flip an early-skipped consumer while a cleanup offer is pending (C13-10)
@@ -318,6 +332,8 @@ fn workloads(prop: &str, thorough: bool) -> Vec<Work> {
             w.push(Work::Meta { family: LateFail, maxn: 4, n: 4000 * k });
         }
         "C16" => {
+            w.push(bridge_injectf(Stamped, ValidatedEph, 4, 500 * k));
+            w.push(bridge_injectf(Plain, ValidatedEph, 4, 300 * k));
             // a rejected output change (EphemeralChangedOutput) followed by failures / an abort in the same evaluation
             for (conv, fam, n) in [(Plain, ValidatedEph, 4000u64), (Stamped, ValidatedEph, 2000), (Plain, EphChain, 2000)] {
                 let mut c = ChainCfg::new(conv, fam, 4);
@@ -338,6 +354,8 @@ fn workloads(prop: &str, thorough: bool) -> Vec<Work> {
             w.push(chains(Stamped, ValidatedEph, 4, 8000 * k));
         }
         "C17" => {
+            w.push(bridge_injectf(Stamped, ValidatedEph, 4, 500 * k));
+            w.push(bridge_injectf(Plain, ValidatedEph, 4, 300 * k));
             w.push(bridge(Stamped, LateFail, 4, 500 * k, false, false));
             w.push(bridge(Prod, AbortOffered, 7, 400 * k, false, false));
             // a rejected output change (EphemeralChangedOutput) followed by failures / an abort in the same evaluation
